@@ -7,6 +7,8 @@ import (
 	"errors"
 	"fmt"
 	"math/rand"
+	"runtime"
+	"strings"
 	"sync"
 	"sync/atomic"
 	"time"
@@ -47,10 +49,16 @@ type FaultStore struct {
 	// FailStore, when non-nil, is returned by the next StoreLogs.
 	FailStore error
 	Gets      atomic.Int64
+	// OnGet, when set, is called (on the caller's goroutine, i.e. the verifier's) before
+	// the read of index i.
+	OnGet atomic.Pointer[func(i uint64)]
 }
 
 func (f *FaultStore) GetLog(i uint64, l *raft.Log) error {
 	f.Gets.Add(1)
+	if cb := f.OnGet.Load(); cb != nil {
+		(*cb)(i)
+	}
 	f.mu.Lock()
 	ferr := f.FailGet[i]
 	mut := f.Corrupt[i]
@@ -149,11 +157,16 @@ func (n *Node) Restart() {
 }
 
 // Quiesce waits until every checkpoint stored through the current middleware
-// has been reported or counted as dropped. Decided by counts; the wall-clock
-// bound only guards against a hung run (returns false: inconclusive).
+// has been reported or counted as dropped (decided by counts). If the counts do not
+// get there, it falls back to a criterion that does not depend on the accounting being
+// right: the middleware's verifier goroutine is parked in its channel receive with
+// nothing in progress, i.e. everything that was queued has been verified, delivered and
+// counted. Then it returns true and the caller judges the counters as they are. The
+// wall-clock bound only guards against a hung run (returns false: inconclusive).
 func (n *Node) Quiesce() bool {
 	deadline := time.Now().Add(30 * time.Second)
-	for {
+	idleSince := 0
+	for i := 0; ; i++ {
 		if n.Col.Get("ranges_verified")+n.Col.Get("dropped_reports") >= n.Col.Get("checkpoints_written") {
 			return true
 		}
@@ -161,7 +174,39 @@ func (n *Node) Quiesce() bool {
 			return false
 		}
 		time.Sleep(20 * time.Microsecond)
+		if i > 0 && i%5000 == 0 {
+			if n.VerifierIdle() {
+				idleSince++
+				if idleSince >= 2 {
+					return true
+				}
+			} else {
+				idleSince = 0
+			}
+		}
 	}
+}
+
+// VerifierIdle reports whether the verifier goroutine of the current middleware is
+// blocked receiving from its channel (not inside verify or ReportFn).
+func (n *Node) VerifierIdle() bool {
+	if n.park.Load() != nil {
+		return false
+	}
+	buf := make([]byte, 4<<20)
+	buf = buf[:runtime.Stack(buf, true)]
+	want := fmt.Sprintf("verifier.(*LogStore).runVerifier(%p", n.V)
+	for _, g := range strings.Split(string(buf), "\n\n") {
+		if !strings.Contains(g, want) {
+			continue
+		}
+		head := g
+		if i := strings.Index(g, "\n"); i > 0 {
+			head = g[:i]
+		}
+		return strings.Contains(head, "[chan receive") && !strings.Contains(g, ").verify(") && !strings.Contains(g, "reportFn")
+	}
+	return false
 }
 
 // TakeReports returns and clears the delivered reports.
